@@ -112,6 +112,16 @@ impl<'a, 'b> DispatcherBuilder<'a, 'b> {
         Default::default()
     }
 
+    /// Verification hook: the plan as it would be executed by the built
+    /// dispatcher.
+    #[cfg(feature = "verif-hooks")]
+    pub fn verif_layout(&self) -> crate::dispatch::VerifLayout {
+        crate::dispatch::VerifLayout {
+            stages: self.stages_builder.verif_layout(),
+            thread_local: crate::dispatch::dispatcher::verif_thread_local(&self.thread_local),
+        }
+    }
+
     /// Returns whether or not any system has been added to the builder
     pub fn is_empty(&self) -> bool {
         self.map.is_empty()
